@@ -45,6 +45,12 @@ def generate(seed, tier, enlarged=False):
         # corpus: a parallel process that changes its own timestep through its parameters
         {'kind': 'twin', 'procs': [{'ts': 2.0, 'par': True, 'cls': 'adaptive'}, {'ts': 1.0, 'par': False, 'cls': 'acc'}],
          'step_par': False, 'calls': [[6.0, 'update']], 'end': 'once', 'profile': False},
+        # corpus: a parallel process that uses OS-level parallelism of its own inside next_update
+        {'kind': 'twin', 'procs': [{'ts': 1.0, 'par': True, 'cls': 'spawner'}, {'ts': 1.0, 'par': False, 'cls': 'acc'}],
+         'step_par': False, 'calls': [[2.0, 'update']], 'end': 'once', 'profile': False},
+        # corpus: a compartment with a parallel step (and process) generated while the engine runs, then end()
+        {'kind': 'grow', 'at': 2, 'more': 2, 'proc_par': False, 'step_par': True, 'divide': False},
+        {'kind': 'grow', 'at': 1, 'more': 3, 'proc_par': True, 'step_par': True, 'divide': True},
         # corpus: a compartment holding a parallel STEP is deleted while the step is idle
         {'kind': 'delete', 'ts': 1.0, 'at': 2, 'first': 'acc', 'victim': 'step'},
     ]
@@ -63,7 +69,7 @@ def generate(seed, tier, enlarged=False):
         elif r < 6:
             nproc = rng.randint(1, 3)
             procs = [{'ts': rng.choice([0.5, 1.0, 1.0, 2.0]), 'par': rng.random() < 0.6,
-                      'cls': rng.choice(['acc', 'acc', 'setter', 'adaptive'])} for _ in range(nproc)]
+                      'cls': rng.choice(['acc', 'acc', 'setter', 'adaptive', 'spawner'])} for _ in range(nproc)]
             if not any(p['par'] for p in procs):
                 procs[0]['par'] = True
             calls = [[rng.choice([1.0, 2.0, 0.5, 3.0]), rng.choice(['update', 'run', 'update'])]
@@ -81,6 +87,9 @@ def generate(seed, tier, enlarged=False):
                           'first': rng.choice(['acc', 'killer'])})
             if rng.random() < 0.5:
                 cases[-1] = {'kind': 'delete', 'ts': 1.0, 'at': rng.choice([1, 2, 3]), 'first': 'acc', 'victim': 'step'}
+            elif rng.random() < 0.5:
+                cases[-1] = {'kind': 'grow', 'at': rng.choice([1, 2, 3]), 'more': rng.choice([1, 2, 3]),
+                             'proc_par': rng.random() < 0.6, 'step_par': rng.random() < 0.7, 'divide': rng.random() < 0.4}
     return cases
 
 
@@ -131,7 +140,7 @@ def run_proto(c):
 
 def build_twin(c, parallel):
     from vivarium.core.engine import Engine
-    from harness.par_kit import Acc, Doubler, Setter, Busy, Adaptive
+    from harness.par_kit import Acc, Doubler, Setter, Busy, Adaptive, Spawner
     processes, topology = {}, {}
     for i, p in enumerate(c['procs']):
         params = {'pid': i, 'time_step': p['ts']}
@@ -140,7 +149,7 @@ def build_twin(c, parallel):
         if p.get('cls') == 'adaptive':
             params = dict(params, timestep=2.0)
             params.pop('time_step')
-        processes['p%d' % i] = {'acc': Acc, 'setter': Setter, 'busy': Busy, 'adaptive': Adaptive}[p.get('cls', 'acc')](params)
+        processes['p%d' % i] = {'acc': Acc, 'setter': Setter, 'busy': Busy, 'adaptive': Adaptive, 'spawner': Spawner}[p.get('cls', 'acc')](params)
         topology['p%d' % i] = {'shared': ('shared',), 'own': ('own%d' % i,)}
     sp = {'_parallel': True} if (parallel and c['step_par']) else {}
     steps = {'d': Doubler(sp)}
@@ -260,7 +269,48 @@ def run_delete_step(c):
     return {'err': err, 'gone': gone, 'left': left}
 
 
+def run_grow(c):
+    """a compartment with a (parallel) process and a (parallel) step is generated - and possibly divided - while the
+    engine runs; then Engine.end(): every worker must be gone, with the garbage collector off (only the engine's own
+    shutdown path may reap them), and the final state must be that of the serial run"""
+    from vivarium.core.engine import Engine
+    from harness.par_kit import Grower
+    import gc
+    out = {}
+    for mode in ('serial', 'parallel'):
+        par = mode == 'parallel'
+        err, state = None, None
+        gc.disable()
+        try:
+            with contextlib.redirect_stdout(io.StringIO()):
+                # (the shared counter is declared by a process present from the start: a compartment generated at run
+                # time gets its defaults applied only below its own key)
+                from harness.par_kit import Acc, Doubler
+                eng = Engine(processes={'grower': Grower({'at': c['at'], 'proc_par': par and c['proc_par'],
+                                                          'step_par': par and c['step_par'], 'divide': c['divide']}),
+                                        'base': Acc({'pid': 1, 'time_step': 1.0})},
+                             steps={'d0': Doubler()}, flow={'d0': []},
+                             topology={'grower': {'agents': ('agents',)}, 'd0': {'shared': ('shared',)},
+                                       'base': {'shared': ('shared',), 'own': ('own_base',)}}, display_info=False)
+                eng.update(c['at'] + c['more'])
+                state = {'shared': eng.state.get_value().get('shared'),
+                         'agents': sorted(eng.state.get_value().get('agents', {}))}
+                eng.end()
+            left = grace()
+        except Exception as e:
+            err = '%s: %s' % (type(e).__name__, str(e)[:150])
+            left = grace()
+        finally:
+            gc.enable()
+        for ch in multiprocessing.active_children():
+            ch.terminate()
+        out[mode] = {'err': err, 'state': state, 'left': left}
+    return out
+
+
 def run_impl(c):
+    if c['kind'] == 'grow':
+        return run_grow(c)
     if c['kind'] == 'proto':
         return run_proto(c)
     if c['kind'] == 'twin':
@@ -288,6 +338,18 @@ def oracle(c, ob, rng):
                 msgs.append(('marking processes parallel changes the published composite', 'parallel-not-transparent'))
         if p['left']:
             msgs.append(('%d worker process(es) still alive after Engine.end()/%s' % (p['left'], c['end']), 'worker-leaked'))
+    elif c['kind'] == 'grow':
+        s, p = ob['serial'], ob['parallel']
+        if p['err'] or s['err']:
+            msgs.append(('a compartment generated at run time: the %s run raised %s' % (
+                'parallel' if p['err'] else 'serial', p['err'] or s['err']), 'parallel-raised' if p['err'] else 'serial-raised'))
+        elif s['state'] != p['state']:
+            msgs.append(('marking the generated process/step parallel changes the final state: %r / %r'
+                         % (s['state'], p['state']), 'parallel-not-transparent'))
+        if p['left']:
+            msgs.append(('%d worker process(es) of a compartment generated at run time (process parallel: %r, step '
+                         'parallel: %r, divided: %r) still alive after Engine.end()'
+                         % (p['left'], c['proc_par'], c['step_par'], c['divide']), 'worker-leaked'))
     elif c['kind'] == 'delete':
         inflight = c['ts'] > c['at'] or (c['ts'] == c['at'] and c['first'] == 'killer') or \
             (c['ts'] <= c['at'] and c['first'] == 'killer' and (c['at'] % c['ts'] == 0))
